@@ -75,6 +75,35 @@ pub fn candidates(seed: u64) -> Vec<Value> {
     let mut s = seed.wrapping_add(4711);
     let mut nx = |n: u64| { s = s.wrapping_mul(6364136223846793005).wrapping_add(1442695040888963407); (s >> 33) % n };
     let vts = [json!([[0, 1], 2]), json!([0, [1, 2]]), json!([[2, 0], 1]), json!([1, [2, 0]]), json!([[0, 1], [2, 3]]), json!([[[3, 1], 0], 2]), json!([2, [0, [3, 1]]]), json!([[1, [3, 0]], 2])];
+    // systematic: two non-literal operands f, g (binary operations on literals), then iff / xor and every ite built from
+    // f, g, their negations and the constants -- in ONE builder per (vtree, f, g), so that the ite cache entries written by
+    // the first operations are read by the later ones
+    {
+        let vt3 = [json!([[0, 1], 2]), json!([0, [1, 2]]), json!([[2, 0], 1]), json!([1, [2, 0]]), json!([[1, 2], 0]), json!([2, [1, 0]])];
+        // operand shapes: (op, literal a, literal b) with literals 0..5 = x0, !x0, x1, !x1, x2, !x2
+        let shapes: Vec<(&str, usize, usize)> = vec![("and", 0, 2), ("or", 1, 4), ("and", 2, 5), ("xor", 0, 4), ("or", 0, 3), ("and", 1, 3), ("or", 2, 4), ("xor", 2, 5)];
+        let mut cnt = 0usize;
+        for (fi, f) in shapes.iter().enumerate() { for (gi, g) in shapes.iter().enumerate() {
+            if fi == gi { continue; }
+            let vt = vt3[cnt % 6].clone(); cnt += 1;
+            let mut ops: Vec<Value> = (0..3).flat_map(|l| vec![json!(["var", l, true]), json!(["var", l, false])]).collect();
+            ops.push(json!([f.0, f.1, f.2]));   // 6: f
+            ops.push(json!([g.0, g.1, g.2]));   // 7: g
+            ops.push(json!(["neg", 6]));        // 8: !f
+            ops.push(json!(["neg", 7]));        // 9: !g
+            ops.push(json!(["iff", 6, 7]));
+            ops.push(json!(["xor", 6, 7]));
+            ops.push(json!(["or", 7, 8]));      // 12: true-ish helper: g | !f
+            ops.push(json!(["and", 6, 8]));     // 13: the false constant
+            ops.push(json!(["neg", 13]));       // 14: the true constant
+            for (a, b2, c) in [(7, 6, 14), (7, 6, 9), (9, 14, 6), (7, 8, 13), (7, 8, 7), (9, 13, 8), (6, 7, 9), (6, 7, 14), (6, 9, 7), (8, 7, 6), (6, 14, 7), (7, 13, 6)] {
+                ops.push(json!(["ite", a, b2, c]));
+            }
+            ops.push(json!(["iff", 7, 6]));
+            ops.push(json!(["xor", 8, 7]));
+            out.push(json!({"case": "sdd_prog", "vtree": vt, "ops": ops}));
+        } }
+    }
     for t in 0..1200 {
         let vt = vts[nx(8) as usize].clone();
         let mut ops: Vec<Value> = (0..3).map(|l| json!(["var", l, true])).collect();
